@@ -3,7 +3,7 @@ from .. import core
 from ..engines import solver
 
 PROP = "C06"
-BUDGET = {"quick": 700, "thorough": 20000}
+BUDGET = {"quick": 2400, "thorough": 50000}
 ALARM_S = 900
 RULE = ("catalogue and bounded random models x theta x observation grid (3-12 points, mostly non-uniform) x 1-3 observed "
         "states in any order x five loss classes with scalar / per-observation spread x weights (non-unit for Square/Normal) "
